@@ -986,3 +986,25 @@ Qed.
 
 Lemma history_lemma h n : d_lookup (d_run h) n = last_def h n None.
 Proof. apply d_run_lookup. Qed.
+
+(** end to end: after any history of define/clear calls that leaves acyclic definitions *)
+Lemma C18_main_lemma h : wf_history h -> acyclic (d_run h) ->
+  exists E F, is_expansion (d_run h) E /\
+    forall fuel e, (F <= fuel)%nat -> in_domain fuel (d_run h) E e ->
+      exists u w, unit_of fuel (d_run h) e = Some (u, w) /\
+        (w = false -> forall k, xdim E u k == dspec E e k /\ xdim E (display (d_run h) u) k == dspec E e k) /\
+        (w = true -> u = [] /\ genuine_mismatch E e) /\
+        (genuine_mismatch E e -> w = true).
+Proof.
+  intros Hh [rank Hrank].
+  exists (Efuel (d_run h) (enough (d_run h) rank)), (enough (d_run h) rank).
+  pose proof (expansion_exists_rank (d_run h) rank Hrank) as HE.
+  pose proof (wf_defs_run h Hh) as Hd.
+  split; [exact HE|]. intros fuel e Hf Hdom.
+  destruct (unit_of_total (d_run h) rank Hrank _ fuel Hf e Hdom) as [u [w Hu]].
+  exists u, w. split; [exact Hu|].
+  destruct (unit_of_sound (d_run h) _ HE Hd fuel e u w Hdom Hu) as [Hw [Hfa [Ht Hg]]].
+  split; [|split; assumption].
+  intros Hwf k. split; [apply Hfa; exact Hwf|].
+  rewrite (display_sound_lemma (d_run h) _ u HE Hd Hw k). apply Hfa. exact Hwf.
+Qed.
